@@ -228,6 +228,53 @@ def run_ratchet(run):
                         "every (from,to) pair of supported versions in thorough; the longest jump, the last single step and a seeded sample in quick"]
 
 
+def run_fault(run):
+    """C43: injected I/O faults: enumeration of single faults + seeded fault sequences"""
+    design(run)
+    quick = run.tier == "quick"
+    binp = vlib.build_driver("internal/verif/dbdrv")
+    checked = ["crash43", "fault"]
+    tdir = vlib.scratch("verif.fault.")
+    env = dict(VERIF_OUT=tdir, VERIF_SEED=str(run.seed), VERIF_MAXN=str(80 if quick else 400))
+    code, out = vlib.run_driver(binp, "TestFaultEnum", env=env, timeout=1700)
+    if "DRIVER-DONE" not in out:
+        raise vlib.Inconclusive("dbdrv TestFaultEnum died:\n" + out[-3000:])
+    enum_cases = int(out.split("DRIVER-DONE")[1].split("probes=")[1].split()[0])
+    env = dict(VERIF_OUT=tdir, VERIF_SEED=str(run.seed), VERIF_SCRIPTS=str(9 if quick else 90), VERIF_STEPS=str(40 if quick else 60))
+    code, out2 = vlib.run_driver(binp, "TestFault", env=env, timeout=3000)
+    if "DRIVER-DONE" not in out2:
+        raise vlib.Inconclusive("dbdrv TestFault died (a panic under an injected fault is itself a C43 failure; see output):\n" + out2[-4000:])
+    injected = int(out2.split("DRIVER-DONE")[1].split("probes=")[1].split()[0])
+    faults = [l for l in out2.splitlines() if l.startswith("DRIVER-FAULTS")]
+    files = sorted(glob.glob(os.path.join(tdir, "*.ndjson")))
+    validate(run, files, checked)
+    evals = 0
+    distinct = set()
+    for f in files:
+        for l in open(f):
+            if '"cls":"fault"' in l or '"op":"reopen"' in l or '"op":"crashprobe"' in l:
+                evals += 1
+                distinct.add(vlib.sha(os.path.basename(f) + l))
+    run.cov["evaluations"] = evals
+    run.cov["distinct_nontrivial"] = len(distinct)
+    run.cov["rule"] = ("evaluations = reads performed under or after injected faults (each must be an error or the model's result), plus recovered "
+                       "states after fatal faults / after the faults stopped (prefix containing all acknowledged entries), all decided by TLC; "
+                       "distinct by trace and event content. single-fault enumeration: every n-th read / n-th write-sync-create on table and blob "
+                       "files during Flush+Compact of a fixed history, for 3 configurations")
+    run.cov["single_fault_cases"] = enum_cases
+    run.cov["faults_injected_in_sequences"] = injected
+    run.cov["faults_by_mode_class_op"] = faults[0][len("DRIVER-FAULTS "):] if faults else ""
+    run.cov["exhaustive"] = False
+    if enum_cases < 50 or injected < 20:
+        raise vlib.Inconclusive("too few faults fired (%d single, %d in sequences)" % (enum_cases, injected))
+    if not run.violations:
+        kv.binding_demo(run, [f for f in files if os.path.basename(f).startswith("E-")], ["fault"])
+    for f in files[:1]:
+        run.sample({"trace": os.path.basename(f), "events": [json.loads(l) for l in list(open(f))[3:9]]})
+    run.assumptions += ["faults are injected through vfs/errorfs on table/blob reads, table/blob writes-syncs-creates, and WAL/MANIFEST writes-syncs",
+                        "a fatal error (Logger.Fatalf) is modelled as a crash at that point: the goroutine is parked, the store crash-cloned and reopened"]
+
+
 def REGISTER(reg):
     note = ("Trusted: TLC; KV.tla as the statement of the history semantics; vfs.MemFS's crash model (the repository's own); the overlay "
             "helper CrashCloneWith that makes the survival choice explicit. Bounded: 12-key universe, 30-45 call histories, the listed "
@@ -250,6 +297,13 @@ def REGISTER(reg):
         "From every supported version to every higher one with data in tables and WAL: crash clones at every FS write op of the ratchet x survival "
         "subsets must recover a version in [old, new] (>= any returned ratchet) with the contents intact (TLC); lowering is refused; reads unchanged.",
         note, tech, "DESIGN 6/C40", level="model_checking", engine="crash")
+    reg("C43", "I/O faults never cause wrong results or inconsistent state", run_fault,
+        "Every single read fault and every single write/sync/create fault on table and blob files during Flush+Compact of a fixed history is "
+        "enumerated, plus seeded fault sequences in three modes (reads; background writes; fatal WAL/MANIFEST faults treated as crashes): every "
+        "read must be an error or the model's result, the state must read back exactly once the faults stop, and recovery must yield a prefix "
+        "with all acknowledged entries - each decided by TLC against KV.tla.",
+        note, "fault enumeration through vfs/errorfs on the real DB; every observation validated by TLC against the TLA+ model (KVTrace)",
+        "DESIGN 6/C43", level="fault_enumeration", engine="crash")
     reg("C22", "MANIFEST updates are atomic and durable", run_crash,
         "At every FS op on MANIFEST/marker/directory (and a sample of the others) x all survival subsets (<=5 items): Open must succeed and the "
         "version recovered read-only must be one of the last two versions the uncrashed MANIFEST describes (only the last at quiescent points).",
